@@ -49,6 +49,8 @@ pub mod ffi;
 pub mod flags;
 pub mod helpers;
 pub mod primary;
+#[cfg(bp7_verif)]
+pub mod verif_hooks;
 #[cfg(feature = "bpsec")]
 pub mod security;
 
